@@ -204,9 +204,9 @@ class UFunction:
         for b in range(B):
             for comp in itertools.product(*[range(n) for n in self.out]):
                 if self.elementwise:
-                    key = (comp, repr(tp), repr(Poly.lift(y.a[b, comp[0]])))
+                    key = (comp, tp.key(), Poly.lift(y.a[b, comp[0]]).key())
                 else:
-                    key = (comp, repr(tp), tuple(repr(Poly.lift(y.a[b, k])) for k in range(self.d)))
+                    key = (comp, tp.key(), tuple(Poly.lift(y.a[b, k]).key() for k in range(self.d)))
                 if key not in self.atoms:
                     self.atoms[key] = f'{self.name}{"".join(map(str, comp))}#{len(self.atoms)}'
                 out[(b,) + comp] = Poly.var(self.atoms[key])
@@ -247,6 +247,22 @@ class DynJetFunction:
         if not isinstance(y, XT) or y.a.ndim != 2 or y.a.shape[1] != self.d:
             raise I.PyExc('RuntimeError', f'{self.name}: state of shape {getattr(y, "shape", None)}; expected (B,{self.d})')
         B = y.a.shape[0]
+        if y.rg and getattr(y, 'eta', None) is None:
+            # y is an intermediate node of the autograd graph: give it formal zero-valued perturbations so that a later
+            # torch.autograd.grad(..., inputs=y) (as in dg_ga_jvp_column_sum_v1) is expressible; values are unaffected
+            from .tensor import STATE as _ST
+            from . import poly as _pm
+            names = []
+            for _ in range(y.a.size):
+                _ST['eta_count'] += 1
+                nm = f'eta{_ST["eta_count"]}'
+                _pm.WEIGHTS[nm] = ('eta', 1)
+                names.append(nm)
+            y.eta = names
+            y.eta_aux = True
+        aux = None
+        if getattr(y, 'eta_aux', False):
+            aux = np.array([Poly.var(nm) for nm in y.eta], dtype=object).reshape(y.a.shape)
         out = np.empty((B,) + self.out, dtype=object)
         pvals = []
         for h in self.params:
@@ -258,6 +274,8 @@ class DynJetFunction:
             for k in range(self.d):
                 cur = Poly.lift(y.a[b, k])
                 base = el_detach(cur)
+                if aux is not None:
+                    cur = cur + aux[b, k]
                 bases.append(base)
                 pows.append(_powers(cur - base))
             for comp in itertools.product(*[range(n) for n in self.out]):
@@ -267,7 +285,7 @@ class DynJetFunction:
                     use = [comp[0]]
                 else:
                     use = list(range(self.d))
-                key = (comp, repr(tp), tuple(repr(bases[k]) for k in use), tuple(repr(pb) for pb, _ in pvals))
+                key = (comp, tp.key(), tuple(bases[k].key() for k in use), tuple(pb.key() for pb, _ in pvals))
                 pid = self._point(key)
                 ylists = [pows[k] if k in use else pows[k][:1] for k in range(self.d)]
                 tot = Poly()
@@ -285,8 +303,8 @@ class DynJetFunction:
                     sym = f'{self.name}{"".join(map(str, comp))}@{pid}_d{"".join(map(str, alpha))}'
                     tot = tot + term * Poly.var(sym) * Fraction(1, fact)
                 out[(b,) + comp] = tot
-        rg = STATE['grad'] and (y.rg or any(h.rg for h in self.params))
-        if not STATE['grad']:
+        rg = (STATE['grad'] or STATE['transparent']) and (y.rg or any(h.rg for h in self.params))
+        if not STATE['grad'] and not STATE['transparent']:
             from .tensor import _map
             out = _map(el_detach, out)
         return XT(out, rg=rg, leaf=not rg, dtype=y.dtype)
